@@ -32,6 +32,7 @@ ASSUMPTIONS = [
     "rescaling invariance is judged with atol=0 so that the rescaled variance is not rejected",
 ]
 RULE = RULE + " " + forms.RULE_SUFFIX
+RULE = RULE + " " + 'Half of the weighted fits: the caller overwrites its weight array after fit.'
 
 
 def gen(rng, tier, index):
